@@ -143,6 +143,11 @@ type Config struct {
 
 // Run is the state of one execution.
 type Run struct {
+	// kept: every message Recv returned to the client / server application,
+	// with its checksum at that moment
+	kept    [2][][]byte
+	keptSum [2][]uint32
+
 	Cfg    Config
 	Rec    *trace.Recorder
 	Net    *vnet.Net
